@@ -202,8 +202,7 @@ def check_seq(sq, fails, stats):
         elif name == "locate_end" and ok:
             l, k = parse_loc(body), unhex(a[0])
             if not contains_end(l["s"], l["e"], k):
-                fail("C09_contains(end key)", "LocateEndKey(%s) returned %s which does not contain the key by end" % (a[0], body),
-                     "locate-end-key/empty-key" if k == b"" else "")
+                fail("C09_contains(end key)", "LocateEndKey(%s) returned %s which does not contain the key by end" % (a[0] if k else '""', body))
         elif name == "lbucket" and ok:
             parts = body.split(" ")
             l, k, probe, bres = parse_loc(parts[0]), unhex(a[0]), unhex(a[1]), parts[2]
